@@ -244,12 +244,22 @@ def run_check(pid, tier, seed, replay=None, ncases=None):
         return do_replay(pid, replay)
     violations = []          # (replay path, suffix)
     notes = []
+    proof_broken = []
     ok_build, build_log = build_all()
     obligations, discharged, details, broken = audit(pid)
     forb = scan_forbidden()
-    proof_broken = []
     if not ok_build:
         notes.append("build problems: " + build_log[-800:])
+        try:
+            status = open(os.path.join(BUILD, "logs", "status.txt")).read()
+        except Exception:
+            status = ""
+        for line in status.split("\n"):
+            if line.startswith("rs2v FAILED"):
+                proof_broken.append("translator obligation: tools/rs2v.py no longer recognises the Rust source it regenerates "
+                                    "Model/Generated.v from (%s): the tables the theorems use are not those of /repo" % line)
+            elif line.startswith(("harness FAILED", "extraction FAILED")) or (line.startswith("cli FAILED") and pid == "C20"):
+                proof_broken.append("build: " + line)
     if broken:
         proof_broken.append(broken)
     if forb:
